@@ -173,7 +173,8 @@ def generate(seed: int, tier: str) -> dict:
         form = "rel"
         if rng.random() < 0.12:
             form = "abs"
-        files[src]["imports"]["nxt"] = {"to": dst, "form": form, "spelling": rel_spelling(rng, posixpath.dirname(src), dst), "paren": rng.random() < 0.15}
+        files[src]["imports"]["nxt"] = {"to": dst, "form": form, "spelling": rel_spelling(rng, posixpath.dirname(src), dst), "paren": rng.random() < 0.15,
+                                        "bare": rng.random() < 0.35}
     # decoy imports so that a wrong base directory finds *some* file
     if fr < 0.3 and len(chain) > 1:
         k = rng.randrange(0, len(chain) - 1)
@@ -203,6 +204,8 @@ def file_text(case: dict, path: str, root: str) -> str:
     hop_index = case["chain"].index(path) if path in case["chain"] else -1
     for key, imp in spec["imports"].items():
         lit = imp["spelling"] if imp["form"] == "rel" else posixpath.join(root, imp["to"])
+        if imp["form"] == "rel" and imp.get("bare") and lit.startswith("./") and lit.count("/") >= 2 and "/../" not in lit:
+            lit = lit[2:]  # `sub/x.nix`: a path literal needs a slash but not a leading `./`
         if fault and fault["hop"] == hop_index:
             if fault["kind"] == "non_path_string":
                 lit = '"%s"' % imp["spelling"]
@@ -216,6 +219,8 @@ def file_text(case: dict, path: str, root: str) -> str:
                 lit = posixpath.dirname(lit) or "./."
                 if lit in (".", ".."):
                     lit = lit + "/."
+                if not lit.startswith(("./", "../", "/")):
+                    lit = "./" + lit  # a bare name would be an identifier, not a path literal
         if imp.get("paren") and not (fault and fault["hop"] == hop_index and fault["kind"].startswith("non_path")):
             lit = "(" + lit + ")"
         lines.append("  %s = import %s;" % (key, lit))
